@@ -172,6 +172,9 @@ def run_chunk(chunk):
     sc = fsx.Scratch()
     try:
         pats = fspat.pattern_set('quick')
+        from . import c06
+        have = {p[0] for p in pats}
+        pats = pats + [p for p in c06.relevant_patterns() if p[0] not in have]
         sub = [p for i, p in enumerate(pats) if i % (17 if thin else 9) == 0]
         for d in descs:
             check_state(d, sc, pats + LISTS, FLAGSETS_Q, res, hows=('root_dir',), thin=thin)
